@@ -145,12 +145,17 @@ def merge_case(b, l, r, args, props):
                         ok = wf_chars(base_at, dd) if in_line else wf_relaxed(base_at, dd)
                         if not ok:
                             where = '%s@%s' % (d.get('action'), d['common_path'][-1] if d['common_path'] else '')
-                            out.append(('C11', 'wf:%s:%s' % (fld, where), '%s of decision %d (action %s) at %r is not well formed for its base: %r'
+                            tag = 'wf-emptypatch' if has_empty_patch(dd) else 'wf'
+                            out.append(('C11', '%s:%s:%s' % (tag, fld, where), '%s of decision %d (action %s) at %r is not well formed for its base: %r'
                                         % (fld, di, d.get('action'), d['common_path'], dd)))
     return out, (merged, decisions)
 
 
 MISSING = object()
+
+
+def has_empty_patch(dd):
+    return any(e.get('op') == 'patch' and (not e.get('diff') or has_empty_patch(e['diff'])) for e in dd if isinstance(e, dict))
 
 
 def resolve(doc, path):
